@@ -14,8 +14,12 @@
   holds by construction of `step`.
 -/
 import GocoinV.Proofs.C17
+import GocoinV.Proofs.C17Load
+import GocoinV.Proofs.C17Disk
 namespace GocoinV.Props.C17
 open GocoinV.Model.Balances GocoinV.Spec.Balances GocoinV.Proofs.C17
+open GocoinV.Model.BalancesLoad GocoinV.Proofs.C17Load
+open GocoinV.Model.BalancesDisk GocoinV.Proofs.C17Disk
 
 /-- add_preserves (NewUTXO, one output): adding a qualifying coin that is not yet in the set through
     NewUTXO's loop body keeps the index equal to the projection — whatever the record's representation
@@ -166,6 +170,188 @@ theorem min_zero_lists_every_output (H : Bytes → Nat) (evs : List Ev) (hadm : 
   · rw [hmin]; exact Nat.zero_le _
   · rw [hs]; exact script2idx_script H a hv hl
 
+/-! ### the byte-level load: static decoder (both record formats), abort path
+
+  Model.BalancesLoad mirrors `utxo.NewUtxoRecStatic` with its package-level buffers as explicit state (`Static`),
+  for the plain (`entU`) and the compressed (`entC K`) record format, and `wallet.LoadBalancesFromUtxo` over the
+  stored bytes with the `FetchingBalanceTick` abort. The stateless decoders are C10's `newRecU` / `newRecC`
+  (imported; `recU_roundtrip` / `recC_roundtrip` of Props/C10 say they invert `SerializeU` / `SerializeC`). -/
+
+/-- No residue, plain format: whatever the static buffers hold from earlier records (`st` is arbitrary), when
+    `NewUtxoRecStatic` returns, the record it shows — txid, height, coinbase flag, number of slots and for EVERY slot
+    nil or (value, script) — is exactly what the stateless `NewUtxoRec` decodes from the same bytes. -/
+theorem static_decode_no_residue_plain (st st' : Static) (dat : Bytes) (r : URec)
+    (h : staticDec entU dat st = .ok (r, st')) : UtxoRec.newRecU dat = .ok r := by
+  rw [← genRec_entU]; exact staticDec_sound entU dat st st' r h
+
+/-- No residue, compressed format (any key functions `K`). -/
+theorem static_decode_no_residue_compressed (K : ScriptCompress.KeyOps) (st st' : Static) (dat : Bytes) (r : URec)
+    (h : staticDec (entC K) dat st = .ok (r, st')) : UtxoRec.newRecC K dat = .ok r := by
+  rw [← genRec_entC]; exact staticDec_sound (entC K) dat st st' r h
+
+/-- Sequences, plain format: decoding the serialisations of ANY sequence of well-formed records one after the other
+    through the same static buffers (starting from any buffer state) yields, record by record, exactly the records
+    that were serialised — no output of record k shows in record k+1, whatever their slot counts and live slots.
+    `_partial`: stated for runs in which no decode panics (`staticSeq … = some out`), from ANY buffer state;
+    `static_sequence_exact_plain` below adds that no decode panics when pool and slot array have equal length. -/
+theorem static_sequence_exact_plain_partial (rs : List URec) (hwf : ∀ r ∈ rs, UtxoRec.WFRec r) (bs : List Bytes)
+    (hser : rs.map UtxoRec.serializeU = bs.map some) (st : Static) (out : List URec)
+    (h : staticSeq entU bs st = some out) : out = rs := by
+  refine staticSeq_exact entU rs bs st out ?_ h
+  clear h
+  induction rs generalizing bs with
+  | nil => cases bs <;> simp at hser ⊢
+  | cons r rs ih =>
+    cases bs with
+    | nil => simp at hser
+    | cons b bs =>
+      simp only [List.map_cons, List.cons.injEq] at hser ⊢
+      refine ⟨?_, ih (fun r hr => hwf r (List.mem_cons_of_mem _ hr)) bs hser.2⟩
+      rw [genRec_entU]
+      exact UtxoRec.newRecU_serializeU r (hwf r (by simp)) b hser.1
+
+/-- Sequences, compressed format (sound key functions, amounts on which CompressAmount does not wrap: `WFRecC`). -/
+theorem static_sequence_exact_compressed_partial (K : ScriptCompress.KeyOps) (hK : K.Sound) (rs : List URec)
+    (hwf : ∀ r ∈ rs, UtxoRec.WFRecC r) (bs : List Bytes)
+    (hser : rs.map (UtxoRec.serializeC K) = bs.map some) (st : Static) (out : List URec)
+    (h : staticSeq (entC K) bs st = some out) : out = rs := by
+  refine staticSeq_exact (entC K) rs bs st out ?_ h
+  clear h
+  induction rs generalizing bs with
+  | nil => cases bs <;> simp at hser ⊢
+  | cons r rs ih =>
+    cases bs with
+    | nil => simp at hser
+    | cons b bs =>
+      simp only [List.map_cons, List.cons.injEq] at hser ⊢
+      refine ⟨?_, ih (fun r hr => hwf r (List.mem_cons_of_mem _ hr)) bs hser.2⟩
+      rw [genRec_entC]
+      exact UtxoRec.newRecC_serializeC K hK r (hwf r (by simp)) b hser.1
+
+/-- Sequences, plain format, total: from any buffer state in which `rec_pool` and `rec_outs` have the same length
+    (`Static.Sized`: true at package initialisation, kept by `OutsList`, which re-allocates both together), decoding the
+    serialisations of any sequence of well-formed records through the static decoder never panics and yields exactly
+    those records (the pool cannot run out: slot indices are strictly increasing, so `rec_idx ≤ slot index < cnt`). -/
+theorem static_sequence_exact_plain (rs : List URec) (hwf : ∀ r ∈ rs, UtxoRec.WFRec r) (bs : List Bytes)
+    (hser : rs.map UtxoRec.serializeU = bs.map some) (st : Static) (hz : Static.Sized st) :
+    staticSeq entU bs st = some rs := by
+  refine staticSeq_total entU rs bs st hz ?_ (by simpa using (congrArg List.length hser).symm)
+  intro k r b hr hb st1 hz1
+  have := congrArg (fun l => l[k]?) hser
+  simp only [List.getElem?_map, hr, hb, Option.map_some] at this
+  exact staticDecU_total r (hwf r (List.mem_of_getElem? hr)) b (Option.some.inj this) st1 hz1
+
+/-- Sequences, compressed format, total (sound key functions, `WFRecC`). -/
+theorem static_sequence_exact_compressed (K : ScriptCompress.KeyOps) (hK : K.Sound) (rs : List URec)
+    (hwf : ∀ r ∈ rs, UtxoRec.WFRecC r) (bs : List Bytes)
+    (hser : rs.map (UtxoRec.serializeC K) = bs.map some) (st : Static) (hz : Static.Sized st) :
+    staticSeq (entC K) bs st = some rs := by
+  refine staticSeq_total (entC K) rs bs st hz ?_ (by simpa using (congrArg List.length hser).symm)
+  intro k r b hr hb st1 hz1
+  have := congrArg (fun l => l[k]?) hser
+  simp only [List.getElem?_map, hr, hb, Option.map_some] at this
+  exact staticDecC_total K hK r (hwf r (List.mem_of_getElem? hr)) b (Option.some.inj this) st1 hz1
+
+/-- A COMPLETED byte-level load is the record-level `.enable` step, in either record format (`P = entU` or `entC K`):
+    if the stored bytes decode (statelessly) to the records of the unspent set (`Stored`), the tick never fires and the
+    load returns, the node state afterwards — maps, on flag, applied minimum and useMapCnt — EQUALS
+    `step H s (.enable mn um)`, whatever the static buffers held. Hence every theorem above about histories with
+    `.enable` (inv_all_histories, balances_eq_projection, …) holds verbatim when the index is built from bytes. -/
+theorem load_bytes_eq_enable (P : Parser) (H : Bytes → Nat) (tick : Nat → Bool) (s s' : State) (st st' : Static)
+    (raw : List Bytes) (mn um : Nat) (hs : Stored P raw s.utxo)
+    (hq : ∀ k, 1 ≤ k → k ≤ raw.length → tick k = false)
+    (h : loadFromUtxo P H tick s st raw mn um = some (s', st')) : s' = step H s (.enable mn um) :=
+  loadFromUtxo_completed P H tick s s' st st' raw mn um hs hq h
+
+/-- Build-from-populated over the stored bytes, both formats: after a completed load the index is on and is the
+    projection of the unspent set (the byte-level form of `enable_builds_projection`). -/
+theorem load_bytes_builds_projection (P : Parser) (H : Bytes → Nat) (tick : Nat → Bool) (s s' : State) (st st' : Static)
+    (raw : List Bytes) (mn um : Nat) (hi : Inv H s) (hoff : s.on = false) (hs : Stored P raw s.utxo)
+    (hq : ∀ k, 1 ≤ k → k ≤ raw.length → tick k = false)
+    (h : loadFromUtxo P H tick s st raw mn um = some (s', st')) :
+    s'.on = true ∧ s'.cfg.min = mn ∧ s'.utxo = s.utxo ∧ Rel s'.cfg H s'.bal (coinsOf s'.utxo) := by
+  have e := load_bytes_eq_enable P H tick s s' st st' raw mn um hs hq h
+  have hb := enable_builds_projection H s mn um hi hoff
+  subst e
+  exact ⟨hb.1, hb.2.1, by simp [step, hoff], hb.2.2⟩
+
+/-- The ABORT path: if FetchingBalanceTick answers true after one of the records (1 ≤ k ≤ number of records) and
+    the index was off, then after LoadBalancesFromUtxo returns the index is EMPTY and OFF (no record of the partial
+    scan survives: `InitMaps(true)`), the unspent set is untouched, and the invariant still holds — so a later
+    complete load starts from the same state as if the aborted one had never happened. -/
+theorem load_aborted_leaves_index_empty_and_off (P : Parser) (H : Bytes → Nat) (tick : Nat → Bool) (s s' : State)
+    (st st' : Static) (raw : List Bytes) (mn um : Nat) (hi : Inv H s) (hoff : s.on = false)
+    (hq : ∃ k, 1 ≤ k ∧ k ≤ raw.length ∧ tick k = true)
+    (h : loadFromUtxo P H tick s st raw mn um = some (s', st')) :
+    s'.on = false ∧ s'.bal = [] ∧ s'.utxo = s.utxo ∧ Inv H s' ∧
+      (∀ a, getAllUnspent H s' a = [] ∧ total H s' a = 0) := by
+  have e := loadFromUtxo_aborted P H tick s s' st st' raw mn um hoff hq h
+  subst e
+  refine ⟨rfl, rfl, rfl, ⟨hi.1, fun hon => by cases hon⟩, fun a => ?_⟩
+  simp [getAllUnspent, total, aget]
+
+/-- load_bytes_total, plain format: when `Unspent.HashMap` holds the serialisations (`SerializeU`) of well-formed
+    records which are the model's unspent set, LoadBalancesFromUtxo over those bytes RETURNS (no panic, no hang) from any
+    buffer state with equally long pool and slot arrays and for ANY tick function, keeps that buffer property, and its
+    result is the record-level `.enable` step when the tick never fires, the empty switched-off index when it does. -/
+theorem load_serialized_plain (H : Bytes → Nat) (tick : Nat → Bool) (s : State) (st : Static) (mn um : Nat)
+    (rs : List URec) (hwf : ∀ r ∈ rs, UtxoRec.WFRec r) (raw : List Bytes)
+    (hser : rs.map UtxoRec.serializeU = raw.map some) (hu : rs.map toBal = s.utxo.map Prod.snd)
+    (hz : Static.Sized st) :
+    ∃ s' st', loadFromUtxo entU H tick s st raw mn um = some (s', st') ∧ Static.Sized st' ∧
+      ((∀ k, 1 ≤ k → k ≤ raw.length → tick k = false) → s' = step H s (.enable mn um)) ∧
+      (s.on = false → (∃ k, 1 ≤ k ∧ k ≤ raw.length ∧ tick k = true) →
+        s' = { s with cfg := { min := mn, useMapCnt := um }, bal := [], on := false }) := by
+  obtain ⟨s', st', h, hz'⟩ := loadFromUtxo_total entU H tick s st raw mn um (readable_of_serializedU rs hwf raw hser) hz
+  have hs := stored_of_decodes entU rs raw s.utxo (decodes_of_serializedU rs hwf raw hser) hu
+  exact ⟨s', st', h, hz', fun hq => loadFromUtxo_completed entU H tick s s' st st' raw mn um hs hq h,
+    fun hoff hq => loadFromUtxo_aborted entU H tick s s' st st' raw mn um hoff hq h⟩
+
+/-- load_bytes_total, compressed format (sound key functions, `WFRecC`). -/
+theorem load_serialized_compressed (K : ScriptCompress.KeyOps) (hK : K.Sound) (H : Bytes → Nat) (tick : Nat → Bool)
+    (s : State) (st : Static) (mn um : Nat)
+    (rs : List URec) (hwf : ∀ r ∈ rs, UtxoRec.WFRecC r) (raw : List Bytes)
+    (hser : rs.map (UtxoRec.serializeC K) = raw.map some) (hu : rs.map toBal = s.utxo.map Prod.snd)
+    (hz : Static.Sized st) :
+    ∃ s' st', loadFromUtxo (entC K) H tick s st raw mn um = some (s', st') ∧ Static.Sized st' ∧
+      ((∀ k, 1 ≤ k → k ≤ raw.length → tick k = false) → s' = step H s (.enable mn um)) ∧
+      (s.on = false → (∃ k, 1 ≤ k ∧ k ≤ raw.length ∧ tick k = true) →
+        s' = { s with cfg := { min := mn, useMapCnt := um }, bal := [], on := false }) := by
+  obtain ⟨s', st', h, hz'⟩ := loadFromUtxo_total (entC K) H tick s st raw mn um (readable_of_serializedC K hK rs hwf raw hser) hz
+  have hs := stored_of_decodes (entC K) rs raw s.utxo (decodes_of_serializedC K hK rs hwf raw hser) hu
+  exact ⟨s', st', h, hz', fun hq => loadFromUtxo_completed (entC K) H tick s s' st st' raw mn um hs hq h,
+    fun hoff hq => loadFromUtxo_aborted (entC K) H tick s s' st st' raw mn um hoff hq h⟩
+
+/-! ### the disk cache of the index (wallet/disk.go, Model.BalancesDisk) -/
+
+/-- `btc.ReadVarInt(btc.WriteVarInt(n)) = n` for every uint64 (base-128 VARINT with the uint64 wrap explicit),
+    with anything following. -/
+theorem varint_roundtrip (n : Nat) (h : n < 2 ^ 64) (rest : Bytes) :
+    readVarInt (writeVarInt n ++ rest) = some (n, rest) :=
+  readVarInt_writeVarInt n h rest
+
+/-- disk_roundtrip: for one address type's map `m` (Go map order = any list order) whose records are as the index
+    invariant keeps them (`WFBal`: non-empty duplicate-free entry list — both given by `Rel` — 8-byte keys, uint32
+    vouts, a Value on which CompressAmount does not wrap) and whose keys are uint64, `load_map` on what `save_map`
+    wrote (trailing bytes ignored) assigns a map with exactly the same keys, Values and entries; only the layout is
+    re-chosen (`norm`: map layout iff count >= useMapCnt — a map that had shrunk below useMapCnt comes back as a
+    list, a list never comes back as a map since lists hold < useMapCnt entries). Both layouts write the same bytes. -/
+theorem disk_roundtrip (um : Nat) (m : List (Nat × Bal)) (hl : m.length < 2 ^ 64)
+    (hk : ∀ p ∈ m, p.1 < 2 ^ 64 ∧ WFBal p.2) (extra : Bytes) (prev : List (Nat × Option Bal)) :
+    loadMap um (some (saveMap m ++ extra)) prev = (m.map (fun p => (p.1, some (norm um p.2)))).reverse := by
+  unfold loadMap
+  simp only [loadPairs_saveMap um m hl hk extra]
+
+/-- Observation about the unchanged code, as a fact of the model: when `load_map` cannot open the file or one of its
+    own reads fails (count, a record key), it returns WITHOUT assigning `allBalances[idx]` — the map that was there
+    before (after `InitMaps`: an empty, non-nil one) stays, so `LoadBalances`' `allBalances[i] == nil` test cannot
+    notice it. `_partial`: says nothing about which files make `loadPairs` fail beyond the examples below. -/
+theorem load_corrupt_keeps_previous_partial (um : Nat) (prev : List (Nat × Option Bal)) :
+    loadMap um none prev = prev ∧ ∀ f, loadPairs um f = none → loadMap um (some f) prev = prev := by
+  refine ⟨rfl, fun f h => ?_⟩
+  unfold loadMap
+  simp only [h]
+
 /-! ### non-vacuity -/
 
 def exScr : Bytes := [0x00, 0x14] ++ List.replicate 20 1
@@ -220,5 +406,41 @@ example : ∀ p, scriptForm exOut0.script = some (exAddr.idx, p) → exH p = exH
   intro p h _
   have : scriptForm exOut0.script = some (2, List.replicate 20 1) := by decide +kernel
   rw [this] at h; cases h; rfl
+
+/-! byte-level load: two stored records, the first with a live HIGH slot only (slot 2 of 3), the second with the same
+    slot count and only slot 0 live: the static decoder must not show the first record's slot 2 in the second. -/
+def bOutA : UOut := { value := 7, pk := exScr }
+def bRec1 : URec := { txid := List.replicate 32 1, inBlock := 3, coinbase := false, outs := [none, none, some bOutA] }
+def bRec2 : URec := { txid := List.replicate 32 2, inBlock := 4, coinbase := false, outs := [some bOutA, none, none] }
+def bRaw1 : Bytes := (UtxoRec.serializeU bRec1).getD []
+def bRaw2 : Bytes := (UtxoRec.serializeU bRec2).getD []
+def bUtxo : State := run exH State.init [.add (toBal bRec1), .add (toBal bRec2)]
+
+example : staticSeq entU [bRaw1, bRaw2] (Static.init 4) = some [bRec1, bRec2] := by decide +kernel
+example : [bRec1, bRec2].map UtxoRec.serializeU = [bRaw1, bRaw2].map some := by decide +kernel
+example : Static.Sized (Static.init 4) := static_init_sized 4
+example : [bRec2, bRec1].map toBal = bUtxo.utxo.map Prod.snd := by decide +kernel
+/-- a dirty buffer: slot 2 still points to a pool object (as left by bRec1) -/
+example : (match staticDec entU bRaw2 ((Static.init 4).put 2 bOutA) with
+    | .ok (r, _) => decide (r = bRec2)
+    | _ => false) = true := by decide +kernel
+example : Stored entU [bRaw2, bRaw1] bUtxo.utxo :=
+  ⟨⟨bRec2, by decide +kernel, by decide +kernel⟩, ⟨bRec1, by decide +kernel, by decide +kernel⟩, trivial⟩
+example : (loadFromUtxo entU exH (fun _ => false) bUtxo (Static.init 4) [bRaw2, bRaw1] 5 2).isSome = true := by decide +kernel
+example : (loadFromUtxo entU exH (fun n => n == 1) bUtxo (Static.init 4) [bRaw2, bRaw1] 5 2).map (fun p => (p.1.on, p.1.bal)) =
+    some (false, []) := by decide +kernel
+
+/-! disk cache: a list-layout record and a record that comes back in the map layout -/
+def dBal1 : Bal := { value := 150000, unsp := [(List.replicate 8 3, 1)], isMap := false }
+def dBal2 : Bal := { value := 7, unsp := [(List.replicate 8 4, 0), (List.replicate 8 5, 70000)], isMap := true }
+def dMap : List (Nat × Bal) := [(11, dBal1), (18446744073709551615, dBal2)]
+example : loadMap 2 (some (saveMap dMap)) [] = [(18446744073709551615, some dBal2), (11, some dBal1)] := by decide +kernel
+example : WFBal dBal1 := ⟨by decide, by decide, by intro i hi; simp [dBal1] at hi; subst hi; exact ⟨by decide, by decide⟩, by decide, by decide +kernel, by decide⟩
+example : readVarInt (writeVarInt 18446744073709551615) = some (18446744073709551615, []) := by decide +kernel
+/-- a file cut inside the LAST record: the loop ends with a nil pointer stored for that key (Browse would dereference it) -/
+example : loadPairs 2 ((saveMap dMap).take ((saveMap dMap).length - 1)) = some [(11, some dBal1), (18446744073709551615, none)] := by
+  decide +kernel
+/-- a file cut inside a record that is not the last: the next key read fails, the previous map is kept -/
+example : loadPairs 2 ((saveMap dMap).take 12) = none := by decide +kernel
 
 end GocoinV.Props.C17
